@@ -554,13 +554,35 @@ def _nodes(r, path=()):
         yield from _nodes(c, path + (c["name"],))
 
 
-def inject_fault(rng, r):
+FAULT_KINDS = ["drop-connection", "duplicate-target", "duplicate-source", "cycle", "self-loop", "rep-two-children", "rep-no-child", "rep-own-resources"]
+
+
+def inject_fault(rng, r, kind=None):
     """Returns (faulted copy, description) or None if no fault of the drawn kind fits this hierarchy."""
     import copy
 
     r = copy.deepcopy(r)
-    kind = rng.choice(["drop-connection", "duplicate-target", "duplicate-source", "cycle", "rep-two-children", "rep-no-child", "rep-own-resources"])
+    kind = kind or rng.choice(FAULT_KINDS)
     nodes = [n for n, _ in _nodes(r)]
+    if kind == "self-loop":
+        # a child's own output wired into its own through port (a cycle of length 1 that qref's topology check
+        # does not see); the two displaced ends are wired to each other so every port stays connected once
+        best = []
+        for n in nodes:
+            for ch in n["children"]:
+                thru = [p["name"] for p in ch["ports"] if p["direction"] == "through"]
+                outs = [p["name"] for p in ch["ports"] if p["direction"] == "output"]
+                for t in thru:
+                    w_in = [d for d in n["connections"] if d[1] == f"{ch['name']}.{t}"]
+                    w_out = [d for d in n["connections"] if d[0].split(".")[0] == ch["name"] and "." in d[0]
+                             and d[0].split(".")[1] in outs]
+                    if w_in and w_out:
+                        best.append((w_in[0], w_out[0]))
+        if not best:
+            return None
+        w_in, w_out = rng.choice(best)
+        w_in[0], w_out[0] = w_out[0], w_in[0]
+        return r, kind
     if kind == "drop-connection":
         cands = [n for n in nodes if n["connections"]]
         if not cands:
